@@ -171,6 +171,7 @@ BAD_LINES = [
 class Mutant:
     def __init__(self, mid, label, opcode, kind, main, files):
         self.id, self.label, self.opcode, self.kind, self.main, self.files = mid, label, opcode, kind, main, files
+        self.pre = None      # (name, bytes): a table compiled between G and the mutant in the history run
         self.res = None      # result lines of the in-history run
         self.res2 = None     # of the fresh run
         self.fault = None
@@ -241,6 +242,20 @@ def byte_mutants(rng, n):
     return ms
 
 
+def corpus_mutants():
+    """minimised replays of the findings made so far (corpus/C13.json): always run, first"""
+    import json
+    ms = []
+    for ent in json.load(open(os.path.join(common.VERIF, "corpus", "C13.json"))):
+        files = {n: t.encode("latin-1") for n, t in ent["files"].items()}
+        m = Mutant("c-" + ent["id"], "corpus:" + ent["id"], ent["opcode"], ent["kind"], ent["main"], files)
+        if ent.get("pre"):
+            m.pre = (ent["pre"]["name"], ent["pre"]["text"].encode("latin-1"))
+            m.files[m.pre[0]] = m.pre[1]
+        ms.append(m)
+    return ms
+
+
 def grammar_mutants(rng, n):
     ms = []
     r2 = random.Random(4242)
@@ -280,27 +295,31 @@ STRUCT_HACK = re.compile(r"runtime error: index \d+ out of bounds for type '(con
 ANY_BOUNDS = re.compile(r"runtime error: index -?\d+ out of bounds for type '([^']*)'")
 
 
-def build_harness_recover_bounds():
-    """Same objects as common.build_harness() but with -fsanitize-recover=bounds, so that the process goes on after
-    UBSan's report about `TranslationTableRule.charsdots[DEFAULTRULESIZE]` being indexed beyond 50 (the pre-C99
-    'struct hack': the memory is allocated, the declared bound is not).  Without it every mutant with a rule longer
-    than 50 characters would stop at addRule and nothing behind it would be looked at.  Kept in its own directory
-    (common.build_harness removes older h-* builds)."""
-    flags = common.CFLAGS + ["-fsanitize-recover=bounds"]
+def build_variant(tag, flags, link):
+    """Same objects as common.build_harness() with other sanitizer flags, in its own directory
+    (common.build_harness removes older h-* builds, so the prefix differs)."""
     srcs = [os.path.join(common.REPO, "liblouis", s + ".c") for s in common.SRC]
     hdrs = [os.path.join(common.REPO, "liblouis", h) for h in ("internal.h", "liblouis.h", "config.h")]
     hfiles = [os.path.join(common.VERIF, "harness", f) for f in sorted(os.listdir(os.path.join(common.VERIF, "harness")))
               if f.endswith((".c", ".h"))]
     key = common._hash_files(srcs + hdrs + hfiles, " ".join(flags))
-    d = os.path.join(common.BUILD, "hr-" + key)
+    d = os.path.join(common.BUILD, "%s-%s" % (tag, key))
     exe = os.path.join(d, "lvh")
     if os.path.exists(exe):
         return exe
     if os.path.isdir(common.BUILD):
         for old in os.listdir(common.BUILD):
-            if old.startswith("hr-") and old != "hr-" + key:
+            if old.startswith(tag + "-") and old != "%s-%s" % (tag, key):
                 shutil.rmtree(os.path.join(common.BUILD, old), ignore_errors=True)
-    os.makedirs(d, exist_ok=True)
+    os.makedirs(os.path.join(d, "liblouis"), exist_ok=True)
+    # compile from a snapshot: reports carry line numbers, and /repo may move while a check is running
+    snap = []
+    for p in srcs:
+        q = os.path.join(d, "liblouis", os.path.basename(p))
+        shutil.copyfile(p, q)
+        snap.append(q)
+    flags = flags + ["-I" + os.path.join(common.REPO, "liblouis")]
+    srcs = snap
     jobs = [["clang-14"] + flags + ["-c", p, "-o", os.path.join(d, s + ".o")] for s, p in zip(common.SRC, srcs)]
     jobs.append(["clang-14"] + flags + ["-c", os.path.join(common.VERIF, "harness", "lvh.c"),
                                          "-I" + os.path.join(common.VERIF, "harness"), "-o", os.path.join(d, "lvh.o")])
@@ -310,13 +329,79 @@ def build_harness_recover_bounds():
     if bad:
         shutil.rmtree(d, ignore_errors=True)
         raise common.BuildError("\n".join(r.stdout for r in bad))
-    r = common.sh(["clang-14", "-fsanitize=address,undefined", "-o", exe + ".tmp"] +
-                  [os.path.join(d, s + ".o") for s in common.SRC] + [os.path.join(d, "lvh.o")])
+    r = common.sh(["clang-14"] + link + ["-o", exe + ".tmp"] + [os.path.join(d, s + ".o") for s in common.SRC] + [os.path.join(d, "lvh.o")])
     if r.returncode != 0:
         shutil.rmtree(d, ignore_errors=True)
         raise common.BuildError(r.stdout)
     os.rename(exe + ".tmp", exe)
     return exe
+
+
+def build_harness_recover_bounds():
+    """-fsanitize-recover=bounds: the process goes on after UBSan's report about
+    `TranslationTableRule.charsdots[DEFAULTRULESIZE]` being indexed beyond 50 (the pre-C99 'struct hack': the
+    memory is allocated, the declared bound is not).  Without it every mutant with a rule longer than 50
+    characters would stop at addRule and nothing behind it would be looked at."""
+    return build_variant("hr", common.CFLAGS + ["-fsanitize-recover=bounds"], ["-fsanitize=address,undefined"])
+
+
+def build_harness_msan():
+    """MemorySanitizer instead of ASan+UBSan: a branch or address that depends on memory nobody wrote is a
+    result that does not depend on the file contents only (clause d)."""
+    flags = [f for f in common.CFLAGS if not f.startswith(("-fsanitize", "-fno-sanitize"))]
+    flags += ["-fsanitize=memory", "-fsanitize-memory-track-origins"]
+    return build_variant("hm", flags, ["-fsanitize=memory"])
+
+
+MSAN_RE = re.compile(r"WARNING: MemorySanitizer: (\S+)")
+MSAN_ORIGIN = re.compile(r"allocation of '([^']+)' in the stack frame of function '([^']+)'|Uninitialized value was created by a (heap) allocation")
+
+
+def run_msan(exe, files, script, timeout=60):
+    d = tempfile.mkdtemp(prefix="c13m-", dir=common.scratch_root())
+    try:
+        write_files(d, files)
+        write_files(d, {GOOD_G[0]: GOOD_G[1], GOOD_H[0]: GOOD_H[1]})
+        e = dict(os.environ)
+        e["MSAN_OPTIONS"] = "exit_code=98:halt_on_error=1"
+        e.pop("LOUIS_TABLEPATH", None)
+        try:
+            import subprocess
+            p = subprocess.run([exe], input="\n".join(script) + "\n", stdout=subprocess.PIPE, stderr=subprocess.PIPE,
+                               text=True, cwd=d, env=e, timeout=timeout, errors="replace")
+        except Exception:
+            return None
+    finally:
+        shutil.rmtree(d, ignore_errors=True)
+    m = MSAN_RE.search(p.stderr)
+    if not m:
+        return None
+    frame, path = "?", "?"
+    for fm in common.FRAME_RE.finditer(p.stderr):
+        if "/liblouis/" in fm.group(2) or fm.group(2).endswith("lvh.c"):
+            frame, path = fm.group(1), os.path.basename(fm.group(2)) + ":" + fm.group(3)
+            break
+    # the opcode whose code was running: nearest `case CTO_xxx:` above the compileRule frame (stable under line shifts,
+    # and meaningful for byte mutants, where the mutated line is not known)
+    case = frame
+    for fm in common.FRAME_RE.finditer(p.stderr.split("Uninitialized value was created")[0]):
+        if fm.group(1) == "compileRule":
+            try:
+                snapf = os.path.join(os.path.dirname(exe), "liblouis", os.path.basename(fm.group(2)))
+                src = open(snapf, encoding="utf-8", errors="replace").read().split("\n")
+                for k in range(int(fm.group(3)) - 1, 0, -1):
+                    mm = re.match(r"\s*case (CTO_\w+):", src[k])
+                    if mm:
+                        case = mm.group(1)
+                        break
+            except OSError:
+                pass
+            break
+    om = MSAN_ORIGIN.search(p.stderr)
+    origin = ("%s.%s" % (om.group(2), om.group(1)) if om and om.group(1) else ("heap" if om else "?"))
+    nout = len([l for l in p.stdout.split("\n") if l])
+    return {"kind": "msan:" + m.group(1), "frame": frame, "at": path, "origin": origin, "case": case, "op_index": nout,
+            "stderr_tail": p.stderr[:2500]}
 
 
 # ---------------------------------------------------------------- running
@@ -342,7 +427,7 @@ def probe_ops(name):
 
 def history_script(m):
     """G loaded and used, then the mutant, then G again, H, FREE"""
-    return (good_ops(GOOD_G[0]) + ["CHK " + m.main, "GET " + m.main] + probe_ops(m.main) + good_ops(GOOD_G[0]) +
+    return (good_ops(GOOD_G[0]) + (["CHK " + m.pre[0]] if m.pre else []) + ["CHK " + m.main, "GET " + m.main] + probe_ops(m.main) + good_ops(GOOD_G[0]) +
             ["CHK " + GOOD_H[0]] + probe_ops(GOOD_H[0]) + ["FREE"])
 
 
@@ -371,7 +456,9 @@ def run_script(exe, files, script, timeout=60, recover=False):
     lines = r.lines[1:]
     fault = None
     if r.fault:
-        fault = dict(r.fault, op_index=len(lines), stderr_tail=r.stderr[-2500:])
+        # the harness prints a tick-budget overflow as the result line of the op that was running
+        nres = len(lines) - (1 if lines and lines[-1].startswith("FAULT ") else 0)
+        fault = dict(r.fault, op_index=nres, stderr_tail=r.stderr[-2500:])
     elif "LeakSanitizer" in r.stderr:
         fault = dict(common.parse_fault(r.stderr, 99), op_index=len(lines), stderr_tail=r.stderr[-2500:])
     elif recover:
@@ -429,6 +516,7 @@ def run(tier):
         ok = st is not None and st[0] == 1 and st[1] == 0 and fault is None
         v.obligation("base table %s compiles cleanly" % label, ok, "%s %s" % (lines[:1], fault))
     ms = systematic(bases)
+    cms = corpus_mutants()
     if tier == "quick":
         # the full systematic set is ~25k mutants: the quick tier takes all kinds on the kitchen sink and the generated
         # tables for a fixed third of the lines plus a seeded sample of the rest
@@ -440,6 +528,7 @@ def run(tier):
     ng = 300 if tier == "quick" else 8000
     ms += byte_mutants(rng, nb)
     ms += grammar_mutants(rng, ng)
+    ms = cms + ms
 
     # reference: G and H in a fresh process that never saw a mutant
     ref_lines, ref_fault = run_script(exe, {}, good_ops(GOOD_G[0]) + ["CHK " + GOOD_H[0]] + probe_ops(GOOD_H[0]) + ["FREE"])
@@ -455,6 +544,12 @@ def run(tier):
     except common.BuildError as e:
         exe_r = None
         v.obligation("second harness build (-fsanitize-recover=bounds) compiles", False, str(e)[-1500:])
+    try:
+        exe_m = build_harness_msan()
+        v.obligation("third harness build (MemorySanitizer) compiles", True)
+    except common.BuildError as e:
+        exe_m = None
+        v.obligation("third harness build (MemorySanitizer) compiles", False, str(e)[-1500:])
 
     def work(m):
         m.res, m.fault = run_script(exe, m.files, history_script(m))
@@ -466,6 +561,7 @@ def run(tier):
             m.hack = True
             m.res, m.fault = run_script(exe_r, m.files, history_script(m), recover=True)
             m.res2, m.fault2 = run_script(exe_r, m.files, fresh_script(m), recover=True)
+        m.msan = run_msan(exe_m, m.files, fresh_script(m)) if exe_m else None
         return m
     with ThreadPoolExecutor(common.NCPU) as ex:
         list(ex.map(work, ms))
@@ -495,14 +591,31 @@ def run(tier):
                     fn = leak_frame(fault.get("stderr_tail", ""))
                 opi = fault.get("op_index", 0)
                 during = script[opi].split(" ")[0] if 0 <= opi < len(script) else "exit"
+                if fault["kind"] in ("tick-budget", "timeout") and during in ("FWD", "BWD"):
+                    # an accepted mutant whose translation does not terminate: C03's business (F2), not the compiler's
+                    v.notes.append("non-terminating translation with an accepted mutant (decided by C03): %s %s %s" % (m.label, m.opcode, m.kind))
+                    break
                 v.violation("C13:b:%s:%s:%s" % (fn, fault["kind"], kindsig),
                             "%s while/after compiling a corrupted table (%s line of %s, corruption %s; %s run, during %s): %s"
                             % (fault["kind"], m.opcode, m.label, m.kind, which, during, fault.get("detail", "")[:120]),
                             dict(replay, fault={k: fault[k] for k in ("kind", "frame", "detail", "op_index")}, stderr=fault.get("stderr_tail", "")[-1800:]))
                 break
+        if m.msan:
+            dist["msan_reports"] = dist.get("msan_reports", 0) + 1
+            ms_ = m.msan
+            fscript = fresh_script(m)
+            during = fscript[ms_["op_index"]].split(" ")[0] if ms_["op_index"] < len(fscript) else "exit"
+            if ms_["at"].startswith(("compileTranslationTable.c", "pattern.c")) or during == "CHK":
+                v.violation("C13:d:%s:msan:%s" % (ms_["origin"], ms_["case"]),
+                            "MemorySanitizer: the compiler's control flow depends on memory nobody wrote (%s at %s, value from %s) — "
+                            "%s line of %s, corruption %s: the outcome is not a function of the file contents"
+                            % (ms_["frame"], ms_["at"], ms_["origin"], m.opcode, m.label, m.kind),
+                            dict(replay, msan={k: ms_[k] for k in ("kind", "frame", "at", "origin")}, stderr=ms_["stderr_tail"][:1800]))
+            else:
+                v.notes.append("uninitialised read outside the compiler during C13 run (decided by C02/C08): %s %s" % (ms_["frame"], ms_["at"]))
         if m.fault or m.fault2 or not m.res or not m.res2:
             continue
-        n0 = nG
+        n0 = nG + (1 if m.pre else 0)
         chk, get = cstat(m.res[n0]), cstat(m.res[n0 + 1])
         if chk is None or get is None:
             continue
